@@ -13,8 +13,10 @@ import (
 
 // c03doc: an arbitrary well-formed graph: 2..N nodes (symbolic, distinct, plain-word ids), one root, up to E edges of
 // type contains / dependsOn / one SPDX-only type with 1..T targets among the nodes (cycles, DAGs, repeated pairs).
-func c03doc() *sbom.Document {
-	n := 2 + rt.NondetLen("n", rt.Bound("N", 3, 3)-2)
+func c03doc() *sbom.Document { return c03docN(rt.Bound("N", 3, 3), rt.Bound("E", 2, 3)) }
+
+func c03docN(maxN, maxE int) *sbom.Document {
+	n := 2 + rt.NondetLen("n", maxN-2)
 	nl := &sbom.NodeList{}
 	// identifiers are concrete and distinct here: the graph shape (which endpoints coincide) is chosen by the
 	// decisions below, so symbolic spelling of the identifiers would add nothing but solver time; the identity
@@ -30,7 +32,7 @@ func c03doc() *sbom.Document {
 	}
 	is := ids(nl)
 	types := []sbom.Edge_Type{sbom.Edge_contains, sbom.Edge_dependsOn, sbom.Edge_buildTool}
-	ne := rt.NondetLen("ne", rt.Bound("E", 2, 3))
+	ne := rt.NondetLen("ne", maxE)
 	for i := 0; i < ne; i++ {
 		e := &sbom.Edge{From: is[rt.NondetChoice("from", n)], Type: types[rt.NondetChoice("ty", len(types))]}
 		nt := 1 + rt.NondetLen("nt", rt.Bound("T", 1, 2)-1)
@@ -49,8 +51,9 @@ func writeTo(doc *sbom.Document, f formats.Format) (*rt.Stream, error) {
 	return s, err
 }
 
-func H_C03_SPDX() {
-	doc := c03doc()
+func H_C03_SPDX() { c03spdx(c03doc()) }
+
+func c03spdx(doc *sbom.Document) {
 	want := cloneList(doc.NodeList)
 	s, err := writeTo(doc, formats.SPDX23JSON)
 	if err != nil {
@@ -112,9 +115,39 @@ func cdxRefs(comps []*rt.J, depth int) []string {
 }
 
 func H_C03_CDX() {
-	doc := c03doc()
+	c03cdx(c03doc(), []formats.Format{formats.CDX15JSON, formats.CDX14JSON}[rt.NondetChoice("version", 2)])
+}
+
+// c03earlier: a document written before the one under test, with the same identifiers in other roles (its root and its
+// nested components are plain components of the later document).
+func c03earlier() *sbom.Document {
+	nl := &sbom.NodeList{RootElements: []string{"idy"}}
+	for _, id := range []string{"idy", "idw", "idz"} {
+		nl.Nodes = append(nl.Nodes, &sbom.Node{Id: id, Name: "earlier", Version: "0"})
+	}
+	nl.Edges = []*sbom.Edge{{From: "idy", Type: sbom.Edge_contains, To: []string{"idw"}}, {From: "idw", Type: sbom.Edge_contains, To: []string{"idz"}},
+		{From: "idw", Type: sbom.Edge_dependsOn, To: []string{"idz"}}}
+	return &sbom.Document{Metadata: &sbom.Metadata{Id: "earlier", Version: "1", Name: "earlier"}, NodeList: nl}
+}
+
+// H_C03_History: the same guarantees for a document written after another one in the same process (the registered
+// serializers are shared by all writers), and after a write that failed.
+func H_C03_History() {
+	f := []formats.Format{formats.CDX15JSON, formats.CDX14JSON, formats.SPDX23JSON}[rt.NondetChoice("format", 3)]
+	first := c03earlier()
+	if rt.NondetChoice("firstfails", 2) == 1 {
+		first.NodeList.Edges = append(first.NodeList.Edges, &sbom.Edge{From: "idw", Type: sbom.Edge_dependsOn, To: []string{"missing"}})
+	}
+	writeTo(first, f)
+	if f == formats.SPDX23JSON {
+		c03spdx(c03docN(3, rt.Bound("EH", 1, 2)))
+		return
+	}
+	c03cdx(c03docN(3, rt.Bound("EH", 1, 2)), f)
+}
+
+func c03cdx(doc *sbom.Document, f formats.Format) {
 	want := cloneList(doc.NodeList)
-	f := []formats.Format{formats.CDX15JSON, formats.CDX14JSON}[rt.NondetChoice("version", 2)]
 	s, err := writeTo(doc, f)
 	if err != nil {
 		return
